@@ -78,6 +78,9 @@ def run(tier, seed):
                    ["none", "b3", "b5", "ch"], 2, 1), 3 if q else "all"),
         # chunked body grammar
         ("chunks", S("server", ["post", "ext", "put"], ["te", "xa"], BODY_OK, 1, 1), 10 if q else "all"),
+        # 1, 2, 3 empty lines before a request-line, as first message and between two pipelined messages; EVERY single
+        # cut in both tiers: the RFC lets a server ignore them or refuse, but not depending on where the reads fall
+        ("emptyl", S("server", ["post", "empty", "empty2", "empty3"], ["cl3"], ["b3"], 1, 2), "all"),
         # pipelines of two requests
         ("pipe2", S("server", ["get", "post"] if q else ["get", "post", "get10"], ["cl3", "te", "close"] if q else ["cl3", "te", "close", "fold"],
                     ["none", "b3", "ch"] if q else ["none", "b3", "ch", "chtr"], 1, 2), 3 if q else 10),
